@@ -1377,7 +1377,7 @@ def run(ctx):
     from props import C07obs
 
     for suite in (fusion_suite, fusion_variants, fusion_history, cone_suite,
-                  C07obs.observation_suite, C07obs.flags_suite, C07obs.wide_suite):
+                  C07obs.observation_suite, C07obs.flags_suite, C07obs.wide_suite, C07obs.channel_suite, C07obs.derived_suite):
         try:
             suite(ctx)
         except Exception as e:  # noqa: BLE001  the real code behaved in a way the harness cannot digest
@@ -1395,12 +1395,15 @@ def run(ctx):
         "observation points: every sequence of <=2 (quick: sampled 3) entries over {H-like(0), H-like(1), CNOT(0,1), CNOT(1,0), callback, M(0|1|1,0, collapse=True)} on 2 qubits plus random n<=4 circuits "
         "with callbacks, collapsing and deferred measurements anywhere (state vectors and density matrices), 3 shots with forced draws: all observed states / probabilities / outcomes / samples fused vs unfused, "
         "and the Lean run (orun, fusedItems) of shot 0 vs the real events; flags: attributes of the fused circuit object vs input vs Lean model of _shallow_copy; snapshots before/after fuse, light_cone, execution; "
-        "wide groups: fused groups on 6 and 7 qubits every run (matrix_fused vs independent product, vs Lean FMAT on 6 qubits, fused execution vs Lean simulator)")
+        "wide groups: fused groups on 6 and 7 qubits every run (matrix_fused vs independent product, vs Lean FMAT on 6 qubits, fused execution vs Lean simulator); "
+        "noise channels: density-matrix circuits with each of the 9 channel classes at every position, every max_qubits: refusal or (no entry lost, flattened queue ~t input by the Lean decision with the channel as an entry on its qubits, equal final density matrix); "
+        "derived operations: fuse().decompose() vs decompose(), measurement-conditioned gates executed before and after fusion with forced outcomes")
     ctx.assumptions += [
         "the theorems are about the Lean transliteration QV/Model/Fusion.lean of Circuit.fuse / FusedGate.fuse / matrix_fused / light_cone; it is tied to the code by exact comparison of fused queues, fused matrices, cones and qubit maps on every generated circuit, and the real output is independently certified by the proved decision procedure for ~t",
         "callbacks and collapsing measurements are observation points of the model QV/Model/FusionObs.lean (T07_fuse_observation_trace: same observation trace and final state for every oracle and normalisation; hypotheses: gates are isometries touching at least one qubit, qubits < nqubits); randomness and the float normalisation are parameters of the model; the tie forces the draws of the real backend and compares real-vs-real and real-vs-model up to normalisation (1e-9), with Gaussian-integer gates (monomial unitaries and sqrt(2)-multiples of H-like unitaries)",
         "the circuit object returned by fuse is modelled on the level of the attributes execution consults (T07_fuse_flags / T07_fuse_exec_mode / T07_fuse_execute), tied by exact comparison of the real fused circuit's attributes with the input's and with the model; parametrized_gates / trainable_gates / wire_names are compared real-vs-real only",
         "re-indexing of the light-cone circuit by qubit_map is covered by C05's relabelling theorem (T05_relabel_run) and exercised by the correspondence",
         "Circuit.unitary() of a fused circuit (DESIGN F18) belongs to C01/C06 and is not examined here",
+        "noise channels are outside the transliterated model (the unchanged code lets them take part in fusion and refuses at execution): the certificate ~t on the real fused queue treats a channel as an opaque entry on its qubits, its effect on the state is search-level",
         "non-mutation of the input by fuse / light_cone / executing the fused circuit is a snapshot comparison (identity and order of the gate objects, qubits, init_args / init_kwargs, parameters, matrices, collapse flags, register names, bookkeeping lists, flags); in the model the functions are pure",
     ]
